@@ -14,7 +14,7 @@ import (
 // C15 - the parser accepts exactly the language and builds the prescribed tree.
 
 var c15Full = []string{"a", "b.c", "not", "and", "or", "in", "is", "empty", "contains", "matches", "any", "all", "as", "_",
-	"0", "1", "-1", "1.5", "01", `"s"`, "`s`", `"/p"`, `""`, `"\q"`, "(", ")", "{", "}", "[", "]", ".", ",", "==", "!="}
+	"0", "1", "-1", "1.5", "01", `"s"`, "`s`", `"/p"`, `""`, `"\q"`, "\"a\nb\"", "`a\rb`", "(", ")", "{", "}", "[", "]", ".", ",", "==", "!="}
 var c15Mid = []string{"a", "b.c", "not", "and", "or", "in", "is", "empty", "contains", "any", "as", "_", "1", `"s"`, `"/p"`, "(", ")", "{", "}", "=="}
 var c15Small = []string{"a", "not", "and", "or", "in", "is", "empty", "any", "as", "1", `"s"`, "(", ")", "{", "}", "=="}
 
@@ -212,7 +212,7 @@ func c15Mutate(r *rand.Rand, s string) string {
 	nm := 1 + r.Intn(2)
 	for m := 0; m < nm && len(toks) > 0; m++ {
 		i := r.Intn(len(toks))
-		switch r.Intn(6) {
+		switch r.Intn(7) {
 		case 0: // delete
 			toks = append(toks[:i:i], toks[i+1:]...)
 		case 1: // insert
@@ -225,6 +225,10 @@ func c15Mutate(r *rand.Rand, s string) string {
 			toks = append(toks[:i+1:i+1], toks[i:]...)
 		case 4: // replace
 			toks[i] = c15Inserts[r.Intn(len(c15Inserts))]
+		case 6: // raw control character inside a token
+			t := toks[i]
+			k := r.Intn(len(t) + 1)
+			toks[i] = t[:k] + []string{"\n", "\r", "\t", "\x00"}[r.Intn(4)] + t[k:]
 		case 5: // truncate / cut inside a token
 			t := toks[i]
 			if len(t) > 1 {
